@@ -294,7 +294,7 @@ def fop_stmts(f):
 
 def ending_stmts(case):
     e = case["ending"]
-    if e == "finish":
+    if e in ("finish", "unreadable"):
         return []
     if e == "raise":
         return ["raise %s('c13 generated failure')" % case.get("raise_cls", "ValueError")]
@@ -357,6 +357,12 @@ def build_project(case, tmp):
     else:
         files["setup.py"] = script_text(case, False)
     for rel, txt in files.items():
+        if rel == "setup.py" and case.get("ending") == "unreadable":
+            # a latin-1 script with a coding cookie and an umlaut: Extractor.contents decodes as UTF-8 and raises
+            raw = ("# -*- coding: latin-1 -*-\n" + txt + "\nAUTHOR = 'M\u00fcller'\n").encode("latin-1")
+            with open(os.path.join(d, rel), "wb") as fh:
+                fh.write(raw)
+            continue
         with open(os.path.join(d, rel), "w") as fh:
             fh.write(txt)
     if pk == "dir":
@@ -545,6 +551,90 @@ def run_case(w: World, case, tmp, emit):
     }
 
 
+BACKEND2 = """import os, sys
+_EV = sys.modules['c13_events']
+def prepare_metadata_for_build_wheel(metadata_directory, config_settings=None):
+    _EV['seen_%(who)s'] = os.getcwd()
+    if %(slow)r:
+        _EV['a_running'].set()
+        _EV['a_release'].wait(20)
+    if %(raises)r:
+        raise RuntimeError('c13 backend failure')
+    _d = os.path.join(metadata_directory, 'c13.dist-info')
+    os.mkdir(_d)
+    _fh = open(os.path.join(_d, 'METADATA'), 'w')
+    _fh.write('Metadata-Version: 2.1\\nName: %(name)s\\nVersion: 1.0\\n')
+    _fh.close()
+    return 'c13.dist-info'
+"""
+
+
+def run_case2(w: World, case, tmp, emit):
+    """Two PEP 517 analyses on two threads; A's backend is slow, B starts while A is inside it."""
+    import threading
+    import time as _time
+    from req_compile.metadata import extract_metadata
+    top = os.path.join(tmp, "c%d" % case["id"])
+    os.makedirs(top)
+    projs = {}
+    for who in ("a", "b"):
+        name = "c13p%d%s" % (case["id"], who)
+        d = os.path.join(top, name)
+        os.makedirs(d)
+        be = "c13backend_%d%s" % (case["id"], who)
+        with open(os.path.join(d, "pyproject.toml"), "w") as fh:
+            fh.write("[build-system]\nrequires = []\nbuild-backend = \"%s\"\n" % be)
+        with open(os.path.join(d, be + ".py"), "w") as fh:
+            fh.write(BACKEND2 % {"who": who, "slow": who == "a" and bool(case.get("overlap")),
+                                 "raises": bool(case.get(who + "_raises")), "name": name})
+        sys.path.insert(0, d)
+        projs[who] = d
+    cwd_dir = os.path.join(tmp, "cwd%d" % case["id"])
+    os.makedirs(cwd_dir)
+    _REAL["chdir"](cwd_dir)
+    ev = {"a_running": threading.Event(), "a_release": threading.Event()}
+    sys.modules["c13_events"] = ev
+    cwd0 = _REAL["getcwd"]()
+    raws0 = [w.raw(k) for k in w.keys]
+    path0 = list(sys.path)
+    meta0 = list(sys.meta_path)
+    emit({"pre": case["id"], "init": "", "root": "", "fake_root": "", "listing0": [], "cwd_in_project": False})
+    out = {}
+
+    def run(who):
+        try:
+            r = extract_metadata(projs[who])
+            out[who] = "ok:%s" % (getattr(r, "name", None),)
+        except BaseException as ex:  # noqa: B036
+            out[who] = "exc:" + type(ex).__name__
+
+    ta = threading.Thread(target=run, args=("a",))
+    tb = threading.Thread(target=run, args=("b",))
+    ta.start()
+    if case.get("overlap"):
+        ev["a_running"].wait(20)
+        tb.start()
+        _time.sleep(0.4)          # B reaches the lock (and, if it does so before the lock, the cwd save)
+        ev["a_release"].set()
+        ta.join(30)
+        tb.join(30)
+    else:
+        ta.join(30)
+        tb.start()
+        tb.join(30)
+    cwd1 = _REAL["getcwd"]()
+    raws1 = [w.raw(k) for k in w.keys]
+    changed = ["%s.%s" % k for k, a, b in zip(w.keys, raws0, raws1) if not (a is b or same(a, b))]
+    path_same = list(sys.path) == path0
+    meta_same = [id(x) for x in sys.meta_path] == [id(x) for x in meta0]
+    w.repair()
+    tok = "CWD0" if cwd1 == cwd0 else cwd1.replace(projs["a"], "PROJ_A").replace(projs["b"], "PROJ_B").replace(tmp, "TMP")
+    seen = {k[5:]: ("CWD0" if v == cwd0 else v.replace(projs["a"], "PROJ_A").replace(projs["b"], "PROJ_B"))
+            for k, v in ev.items() if k.startswith("seen_")}
+    return {"id": case["id"], "kind": "pyproject2", "cwd": tok, "out": out, "seen": seen, "changed": changed,
+            "path_same": path_same, "meta_same": meta_same, "alive": not (ta.is_alive() or tb.is_alive())}
+
+
 def main():
     job = json.load(_REAL["open"](sys.argv[1]))
     out = _REAL["open"](sys.argv[2], "a")
@@ -568,7 +658,7 @@ def main():
             out.write(json.dumps(rec) + "\n")
             out.flush()
         try:
-            r = run_case(w, case, tmp, emit)
+            r = run_case2(w, case, tmp, emit) if case.get("kind") == "pyproject2" else run_case(w, case, tmp, emit)
         except BaseException as ex:  # harness trouble: report, repair, continue
             import traceback
             r = {"id": case["id"], "worker_error": "".join(traceback.format_exception(type(ex), ex, ex.__traceback__))[-1500:]}
